@@ -1,1 +1,392 @@
-//! C14 harnesses (see /verif/tools/HARNESS_GUIDE.md).
+//! C14 — binning assigns the unique enclosing bin; run de-duplication keeps run ends.
+//!
+//! vcut: values (1 or 2 of them, `Option<i32>`, unconstrained incl. i32::MIN / i32::MAX / null), a
+//! concrete number E of symbolic strictly ascending `i32` edges and a concrete number L of labels
+//! (label j is `Some(j)`); `right` / `add_bounds` are literals per harness (the returned boxed closure
+//! differs per flag). Reference: with open bounds the bin of v is the number of edges below v
+//! (`e < v` right-closed, `e <= v` left-closed); without bounds it is that number minus one and exists
+//! only between the first and last edge.
+//!
+//! vsorted_unique(_idx): input built as run-length encoding (see `runs`): a null block of symbolic
+//! length at the head or tail, the rest cut into runs by symbolic break flags, run values strictly
+//! monotone (ascending or descending, symbolic).
+//!
+//! Genuine defects of the pinned tree are isolated in their own harnesses
+//! (`c14_vcut_open_extreme_*`, `c14_unique_idx_last_leading_nulls_*`).
+use tea_core::prelude::*;
+use tea_map::{Keep, MapValidBasic};
+
+use crate::util::*;
+
+// ---------------------------------------------------------------------------------------------
+// vcut
+// ---------------------------------------------------------------------------------------------
+
+/// which values a harness ranges over
+#[derive(Clone, Copy, PartialEq)]
+pub enum Vals {
+    /// everything except the one extreme that the pinned tree mislabels under open bounds
+    /// (i32::MIN right-closed, i32::MAX left-closed) — that value has its own harness
+    NotExcludedExtreme,
+    /// exactly that extreme
+    ExcludedExtreme,
+    /// no restriction (closed bounds)
+    All,
+}
+
+#[derive(Default)]
+pub struct CutFlags {
+    pub labelled: bool,
+    pub outside: bool,
+    pub null: bool,
+    pub on_edge: bool,
+    pub mismatch: bool,
+    pub extreme: bool,
+}
+
+fn sym_value(right: bool, vals: Vals) -> Option<i32> {
+    let v: Option<i32> = kani::any();
+    let ext = if right { i32::MIN } else { i32::MAX };
+    match vals {
+        Vals::All => {},
+        Vals::NotExcludedExtreme => kani::assume(v != Some(ext)),
+        Vals::ExcludedExtreme => kani::assume(v == Some(ext)),
+    }
+    v
+}
+
+/// judge one output item for input value `v`
+fn judge_cut<const E: usize>(
+    v: Option<i32>,
+    edges: &[i32; E],
+    right: bool,
+    add_bounds: bool,
+    item: &Option<TResult<Option<i32>>>,
+    fl: &mut CutFlags,
+) {
+    let item = match item {
+        Some(x) => x,
+        None => {
+            assert!(false, "vcut yields one item per input value");
+            return;
+        },
+    };
+    let v = match v {
+        None => {
+            fl.null = true;
+            assert!(matches!(item, Ok(None)), "null value gets the null label");
+            return;
+        },
+        Some(v) => v,
+    };
+    // number of edges below v
+    let mut below = 0usize;
+    let mut i = 0;
+    while i < E {
+        if (right && edges[i] < v) || (!right && edges[i] <= v) {
+            below += 1;
+        }
+        if edges[i] == v {
+            fl.on_edge = true;
+        }
+        i += 1;
+    }
+    if add_bounds {
+        if (right && v == i32::MIN) || (!right && v == i32::MAX) {
+            fl.extreme = true;
+            assert!(
+                matches!(item, Ok(Some(l)) if *l == below as i32),
+                "open bounds: the extreme value of the type is labelled like any other value"
+            );
+        } else {
+            fl.labelled = true;
+            assert!(item.is_ok(), "open bounds: every non-null value gets a label");
+            assert!(matches!(item, Ok(Some(l)) if *l == below as i32), "label of the unique enclosing interval (open bounds)");
+        }
+    } else if below >= 1 && below < E {
+        // strictly inside (e[0], e[E-1]] resp. [e[0], e[E-1])
+        fl.labelled = true;
+        assert!(matches!(item, Ok(Some(l)) if *l + 1 == below as i32), "label of the unique enclosing interval");
+    } else {
+        fl.outside = true;
+        assert!(item.is_err(), "value outside all intervals is reported as an error");
+    }
+}
+
+/// Results are examined by reference and then `mem::forget`-ed instead of dropped: the drop glue of
+/// `TError` (its `Io(std::io::Error)` variant owns a `Box<dyn Error>`) and of the boxed iterator is a
+/// virtual call over every implementor in the crate graph; it cost 105 s of symbolic execution and
+/// 2.1 M SAT variables per `vcut` call, against 1.3 s / 73 k without it. Nothing of the property is in
+/// a destructor.
+macro_rules! cut_body {
+    ($E:ident, $LMAX:ident, $right:ident, $add_bounds:ident, $vals:ident, $fl:ident, [$($v:ident),+], $mk:expr) => {{
+        let edges: [i32; $E] = kani::any();
+        let mut i = 1;
+        while i < $E {
+            kani::assume(edges[i - 1] < edges[i]);
+            i += 1;
+        }
+        let mut bins: Vec<Option<i32>> = Vec::with_capacity($E);
+        let mut i = 0;
+        while i < $E {
+            bins.push(Some(edges[i]));
+            i += 1;
+        }
+        $(let $v = sym_value($right, $vals);)+
+        // all label counts 0..=E+1
+        let mut l = 0;
+        while l < $LMAX {
+            let mut labels: Vec<Option<i32>> = Vec::with_capacity($LMAX);
+            let mut j = 0;
+            while j < l {
+                labels.push(Some(j as i32));
+                j += 1;
+            }
+            let fits = if $add_bounds { l == $E + 1 } else { l + 1 == $E };
+            let r = $mk.vcut(&bins, &labels, $right, $add_bounds);
+            match r {
+                Err(e) => {
+                    $fl.mismatch = true;
+                    assert!(!fits, "matching label count is accepted");
+                    std::mem::forget(e);
+                },
+                Ok(mut it) => {
+                    assert!(fits, "label count that does not match the edges is an error");
+                    $(
+                        let item = it.next();
+                        judge_cut($v, &edges, $right, $add_bounds, &item, $fl);
+                        std::mem::forget(item);
+                    )+
+                    let end = it.next();
+                    assert!(end.is_none(), "vcut yields no more items than input values");
+                    std::mem::forget(end);
+                    std::mem::forget(it);
+                },
+            }
+            l += 1;
+        }
+    }};
+}
+
+/// All label counts 0..=E+1 against E edges for one (right, add_bounds); one value. `LMAX` = E + 2.
+pub fn cut_case<const E: usize, const LMAX: usize>(right: bool, add_bounds: bool, vals: Vals, fl: &mut CutFlags) {
+    cut_body!(E, LMAX, right, add_bounds, vals, fl, [v0], std::iter::once(v0))
+}
+
+/// the same with two values in the iterator
+pub fn cut_case2<const E: usize, const LMAX: usize>(right: bool, add_bounds: bool, vals: Vals, fl: &mut CutFlags) {
+    cut_body!(E, LMAX, right, add_bounds, vals, fl, [v0, v1], std::iter::once(v0).chain(std::iter::once(v1)))
+}
+
+// ---------------------------------------------------------------------------------------------
+// vsorted_unique_idx / vsorted_unique
+// ---------------------------------------------------------------------------------------------
+
+pub trait Elt: Copy + IsNone + PartialEq + 'static {
+    fn from_key(k: Option<i32>) -> Self;
+    fn key(self) -> Option<i32>;
+}
+impl Elt for Option<i32> {
+    fn from_key(k: Option<i32>) -> Self {
+        k
+    }
+    fn key(self) -> Option<i32> {
+        self
+    }
+}
+impl Elt for f64 {
+    fn from_key(k: Option<i32>) -> Self {
+        match k {
+            None => f64::NAN,
+            Some(v) => v as f64,
+        }
+    }
+    fn key(self) -> Option<i32> {
+        if self != self { None } else { Some(self as i32) }
+    }
+}
+
+/// where the null block may sit
+#[derive(Clone, Copy, PartialEq)]
+pub enum Nulls {
+    /// at the tail (or absent), or the whole input
+    TailOrNone,
+    /// at the head, at least one null and at least one valid element behind it
+    Leading,
+    /// head or tail, any length
+    Anywhere,
+}
+
+/// A sorted input with adjacent equal values, as run-length encoding.
+pub struct Runs<const N: usize> {
+    pub keys: [Option<i32>; N],
+    /// number of runs of equal non-null values
+    pub r: usize,
+    /// first / last index and value of the j-th run (j < r)
+    pub first: [usize; N],
+    pub last: [usize; N],
+    pub val: [i32; N],
+    pub nulls: usize,
+    pub head: bool,
+    pub long_run: bool,
+    pub asc: bool,
+}
+
+/// Null block of symbolic length z at the head or tail; the other N - z positions are cut into runs
+/// by symbolic break flags (equivalent to symbolic run lengths summing to N - z); every break moves
+/// the value strictly up (asc) or down. All array indices below are literals after unrolling.
+pub fn runs<const N: usize>(nulls: Nulls, small: bool) -> Runs<N> {
+    let z: usize = kani::any();
+    kani::assume(z <= N);
+    let head: bool = kani::any();
+    match nulls {
+        Nulls::TailOrNone => kani::assume(!head || z == 0 || z == N),
+        Nulls::Leading => kani::assume(head && z >= 1 && z < N),
+        Nulls::Anywhere => {},
+    }
+    let asc: bool = kani::any();
+    let start = if head { z } else { 0 };
+    let end = start + (N - z);
+    let mut out = Runs { keys: [None; N], r: 0, first: [0; N], last: [0; N], val: [0; N], nulls: z, head, long_run: false, asc };
+    let mut cur: i32 = if small { small_i32(-8, 8) } else { kani::any() };
+    let mut is_first = [false; N];
+    let mut is_last = [false; N];
+    let mut i = 0;
+    while i < N {
+        if i >= start && i < end {
+            if i == start {
+                is_first[i] = true;
+            } else if kani::any() {
+                let nv: i32 = if small { small_i32(-8, 8) } else { kani::any() };
+                kani::assume(if asc { nv > cur } else { nv < cur });
+                cur = nv;
+                is_first[i] = true;
+                is_last[i - 1] = true;
+            } else {
+                out.long_run = true;
+            }
+            if i + 1 == end {
+                is_last[i] = true;
+            }
+            out.keys[i] = Some(cur);
+        }
+        i += 1;
+    }
+    // j-th first / last index by literal-index placement
+    let (mut rf, mut rl) = (0usize, 0usize);
+    let mut i = 0;
+    while i < N {
+        let mut j = 0;
+        while j < N {
+            if is_first[i] && j == rf {
+                out.first[j] = i;
+                if let Some(v) = out.keys[i] {
+                    out.val[j] = v;
+                }
+            }
+            if is_last[i] && j == rl {
+                out.last[j] = i;
+            }
+            j += 1;
+        }
+        if is_first[i] {
+            rf += 1;
+        }
+        if is_last[i] {
+            rl += 1;
+        }
+        i += 1;
+    }
+    out.r = rf;
+    out
+}
+
+pub fn to_vec<T: Elt, const N: usize>(k: &[Option<i32>; N]) -> Vec<T> {
+    let mut v = Vec::with_capacity(N);
+    let mut i = 0;
+    while i < N {
+        v.push(T::from_key(k[i]));
+        i += 1;
+    }
+    v
+}
+
+#[derive(Default)]
+pub struct UFlags {
+    pub long_run: bool,
+    pub several_runs: bool,
+    pub nulls_and_values: bool,
+    pub desc: bool,
+    pub all_null: bool,
+}
+
+fn note<const N: usize>(rn: &Runs<N>, fl: &mut UFlags) {
+    fl.long_run |= rn.long_run;
+    fl.several_runs |= rn.r >= 2;
+    fl.nulls_and_values |= rn.nulls > 0 && rn.r > 0;
+    fl.desc |= !rn.asc && rn.r >= 2;
+    fl.all_null |= rn.nulls == N && N > 0;
+}
+
+/// vsorted_unique_idx(keep): exactly the first / last index of every run, in order.
+pub fn unique_idx_case<T: Elt, const N: usize>(last: bool, nulls: Nulls, small: bool, fl: &mut UFlags)
+where
+    T::Inner: PartialEq + std::fmt::Debug,
+{
+    let rn: Runs<N> = runs(nulls, small);
+    note(&rn, fl);
+    let v: Vec<T> = to_vec(&rn.keys);
+    let mut it = v.titer().vsorted_unique_idx(if last { Keep::Last } else { Keep::First });
+    let mut cnt = 0usize;
+    let mut c = 0;
+    while c <= N {
+        match it.next() {
+            None => break,
+            Some(ix) => {
+                assert!(ix < N, "produced index is in range");
+                if ix < N {
+                    assert!(rn.keys[ix].is_some(), "an index of a null is never produced");
+                }
+                // the c-th output belongs to the c-th run (c is a literal here)
+                if c < N && c < rn.r {
+                    let want = if last { rn.last[c] } else { rn.first[c] };
+                    assert!(ix == want, "j-th produced index is the first/last index of the j-th run");
+                }
+                cnt = c + 1;
+            },
+        }
+        c += 1;
+    }
+    std::mem::forget(it); // boxed iterator: virtual drop
+    assert!(cnt == rn.r, "one index per run of equal non-null values");
+}
+
+/// vsorted_unique: one representative per run, in order, never a null.
+pub fn unique_val_case<T: Elt, const N: usize>(nulls: Nulls, small: bool, fl: &mut UFlags)
+where
+    T::Inner: PartialEq,
+{
+    let rn: Runs<N> = runs(nulls, small);
+    note(&rn, fl);
+    let v: Vec<T> = to_vec(&rn.keys);
+    let mut it = v.titer().vsorted_unique();
+    let mut cnt = 0usize;
+    let mut c = 0;
+    while c <= N {
+        match it.next() {
+            None => break,
+            Some(x) => {
+                let k = x.key();
+                assert!(k.is_some(), "a null is never a representative");
+                if c < N && c < rn.r {
+                    assert!(k == Some(rn.val[c]), "j-th value is the value of the j-th run");
+                }
+                cnt = c + 1;
+            },
+        }
+        c += 1;
+    }
+    assert!(cnt == rn.r, "one representative per run of equal non-null values");
+}
+
+include!("c14_gen.rs");
